@@ -58,3 +58,42 @@ impl Hash for Sym {
         }
     }
 }
+
+/// The same symbolic item behind a second type, for diffs whose old and new side have
+/// different item types (`New::Output: PartialEq<Old::Output>`): it compares with `Sym`
+/// through the same solver decisions but feeds different bytes to a Hasher - like `u32` and
+/// `u64` items that compare equal.  Hash stays lawful within each type.
+#[derive(Clone, Copy, Debug)]
+pub struct SymB(pub Sym);
+impl PartialEq for SymB {
+    fn eq(&self, o: &SymB) -> bool {
+        self.0 == o.0
+    }
+}
+impl Eq for SymB {}
+impl PartialEq<Sym> for SymB {
+    fn eq(&self, o: &Sym) -> bool {
+        self.0 == *o
+    }
+}
+impl PartialEq<SymB> for Sym {
+    fn eq(&self, o: &SymB) -> bool {
+        *self == o.0
+    }
+}
+impl PartialOrd for SymB {
+    fn partial_cmp(&self, o: &SymB) -> Option<Ordering> {
+        Some(self.0.cmp(&o.0))
+    }
+}
+impl Ord for SymB {
+    fn cmp(&self, o: &SymB) -> Ordering {
+        self.0.cmp(&o.0)
+    }
+}
+impl Hash for SymB {
+    fn hash<H: Hasher>(&self, h: &mut H) {
+        0xB2u8.hash(h);
+        self.0.hash(h)
+    }
+}
